@@ -2,19 +2,24 @@
    Lanelet.distance, interpolate_position, merge_lanelets, find_lanelet_successors_in_range and
    find_lanelet_predecessors_in_range (the latter with the predecessor lists as [edges]).
    Discrete outputs (segment index, error kind, vertex lists of the merged lanelet, id lists) are compared
-   exactly, real-valued ones within Obs.close_s; path lists as multisets. *)
+   exactly, real-valued ones within Obs.close_s; path lists as multisets.
+   Vertices are (x, y, z) with z = 0 for a 2-D lanelet.  The oracle segment lengths [ls] of a case are checked here
+   against the polyline of the case ([lens_ok]: 0 <= l, |l^2 - |d|^2| <= 1e-15 |d|^2, one per segment), so the
+   hypothesis valid_lens of the theorems is what the cases satisfy up to rounding.  A merge case also carries the
+   cumulative distance of the MERGED lanelet as the implementation reports it: it must be [cum] of valid lengths of
+   the model's merged centre line (Proofs.ArcLen.merge_distance says what that is in terms of the parts). *)
 From Coq Require Import QArith Qabs ZArith Bool List.
 From CR Require Import Base.QMod Model.ArcLen Model.Routes Corr.Obs.
 Import ListNotations.
 Open Scope Q_scope.
 
 Inductive obs_ip := OIP (c r l : pt) (idx : Z) | OIPAssert | OIPIndex | OIPNan.
-Inductive obs_m := OM (l : lanelet) | OMAssert.
+Inductive obs_m := OM (l : lanelet) (dist : list Q) | OMAssert.
 
 Inductive case :=
-| CDist (ls : list Q) (scale : Q) (o : list Q)
+| CDist (C : list pt) (ls : list Q) (scale : Q) (o : list Q)
 | CInterp (C R L : list pt) (ls : list Q) (s : Q) (scale : Q) (o : obs_ip)
-| CMerge (l1 l2 : lanelet) (o : obs_m)
+| CMerge (l1 l2 : lanelet) (lm : list Q) (scale : Q) (o : obs_m)
 | CRoutes (edges : list (Z * list Z)) (lens : list (Z * Q)) (start : Z) (maxlen : Q) (o : list (list Z)).
 
 Fixpoint assoc {A} (d : A) (l : list (Z * A)) (i : Z) : A :=
@@ -30,8 +35,14 @@ Fixpoint all2 {A B} (f : A -> B -> bool) (a : list A) (b : list B) : bool :=
   | _, _ => false
   end.
 
-Definition close_pt (scale : Q) (m o : pt) : bool := close_s scale (px m) (px o) && close_s scale (py m) (py o).
-Definition eq_pt (m o : pt) : bool := Qeq_bool (px m) (px o) && Qeq_bool (py m) (py o).
+Definition close_pt (scale : Q) (m o : pt) : bool :=
+  close_s scale (px m) (px o) && close_s scale (py m) (py o) && close_s scale (pz m) (pz o).
+Definition eq_pt (m o : pt) : bool := Qeq_bool (px m) (px o) && Qeq_bool (py m) (py o) && Qeq_bool (pz m) (pz o).
+
+(* the sqrt oracle: l is the length of segment d up to rounding *)
+Definition len_ok (d : pt) (l : Q) : bool :=
+  Qle_bool 0 l && Qle_bool (Qabs (l * l - norm2 d)) (norm2 d * (1 # 1000000000000000)).
+Definition lens_ok (P : list pt) (ls : list Q) : bool := all2 len_ok (deltas P) ls.
 Definition eqb_path : list Z -> list Z -> bool := all2 Z.eqb.
 
 Fixpoint remove1 (p : list Z) (l : list (list Z)) : option (list (list Z)) :=
@@ -52,8 +63,9 @@ Definition eq_lanelet (m o : lanelet) : bool :=
 
 Definition check (c : case) : bool :=
   match c with
-  | CDist ls scale o => all2 (close_s scale) (cum ls) o
+  | CDist C ls scale o => lens_ok C ls && all2 (close_s scale) (cum ls) o
   | CInterp C R L ls s scale o =>
+      lens_ok C ls &&
       match interpolate C R L ls s, o with
       | IOk c r l i, OIP c' r' l' i' => (i =? i')%Z && close_pt scale c c' && close_pt scale r r' && close_pt scale l l'
       | IAssert, OIPAssert => true
@@ -61,9 +73,9 @@ Definition check (c : case) : bool :=
       | INan, OIPNan => true
       | _, _ => false
       end
-  | CMerge l1 l2 o =>
+  | CMerge l1 l2 lm scale o =>
       match merge l1 l2, o with
-      | MOk m, OM m' => eq_lanelet m m'
+      | MOk m, OM m' d' => eq_lanelet m m' && lens_ok (l_center m) lm && all2 (close_s scale) (cum lm) d'
       | MAssert, OMAssert => true
       | _, _ => false
       end
